@@ -7,6 +7,7 @@ import PjrpcModel.Driver.SuiteAsync
 import PjrpcModel.Driver.SuiteClient
 import PjrpcModel.Driver.SuiteMocker
 import PjrpcModel.Driver.SuiteHttp
+import PjrpcModel.Driver.SuiteHistory
 open Pjrpc.Driver
 
 def handle (line : String) : String :=
@@ -22,6 +23,7 @@ def handle (line : String) : String :=
       | "client" => suiteClient c
       | "mocker" => suiteMocker c
       | "http" => suiteHttp c
+      | "history" => suiteHistory c
       | s => throw s!"unknown suite {s}"
     match r with
     | .ok j => j.compress
